@@ -4209,7 +4209,44 @@ func ruleCDC15(w *World, r *Report) {
 		ok := len(tests) > 0 && len(findInstrs(fn, isChange)) > 0
 		var wit []ssa.Instruction
 		if ok {
-			if f, wt := (pathQuery{fn: fn, target: isChange, avoid: isTest}).find(entryPos(fn)); f {
+			// (written out in AddEdge itself the test is a loop inside `if timestamp != 0`: a record without a timestamp
+			// cannot be recognised, and an empty list holds nothing to find — neither is a way round the test)
+			scenario := zeroIterEdges(fn, isTest)
+			for _, b := range fn.Blocks {
+				for _, in := range b.Instrs {
+					bo, isBo := in.(*ssa.BinOp)
+					if !isBo || (bo.Op != token.NEQ && bo.Op != token.EQL) {
+						continue
+					}
+					p, isP := bo.X.(*ssa.Parameter)
+					k, isK := constInt(bo.Y)
+					if !isP || !isK || k != 0 || !isInt64(p.Type()) {
+						continue
+					}
+					t, f := condEdges(bo)
+					zero := f
+					if bo.Op == token.EQL {
+						zero = t
+					}
+					for _, e := range zero {
+						scenario[e] = true
+					}
+				}
+			}
+			// a scan for such a version has been run: the test itself, or the head of the loop it sits in (a scan that
+			// meets no entry of this peer never evaluates the timestamp comparison)
+			scanned := func(in ssa.Instruction) bool {
+				if isTest(in) {
+					return true
+				}
+				for _, t := range tests {
+					if h := innermostLoop(fn, t.Block()); h != nil && in == h.Instrs[0] {
+						return true
+					}
+				}
+				return false
+			}
+			if f, wt := (pathQuery{fn: fn, target: isChange, avoid: scanned, blocked: scenario}).find(entryPos(fn)); f {
 				ok, wit = false, wt
 			}
 			// on the "already there" edge nothing is changed
